@@ -790,6 +790,9 @@ class CompositeEnvelope:
             assert isinstance(
                 ce, CompositeEnvelope
             ), "ce should be CompositeEnvelope type"
+            if ce.uid == self.uid:
+                # Already merged through another handle of the same composite
+                continue
             state_objs.extend(ce.state_objs)
             if ce_container is None:
                 ce_container = CompositeEnvelope._containers[ce.uid]
